@@ -103,7 +103,9 @@ def build():
         note="list(app_sig.model_sigs) is modelled as the snapshot list of the app's model signatures")
 
     add_delete_model_mutate(w)
+    add_delete_application_mutate(w)
     fam = Family('contracts.deletion', w)
+    fam.replay['DeleteApplication.mutate'] = replay_delete_app
     fam.syntactic.append(Syntactic('purge_only_on_request', ['C15'], syn_purge_gate,
                                    'Command._add_tasks queues purge tasks only under `if self.purge:`; '
                                    'Evolver.queue_purge_old_apps iterates exactly initial_diff.deleted; no other caller '
@@ -112,6 +114,41 @@ def build():
                                    'DeleteModel.mutate calls delete_table exactly twice: once per M2M field (inside the loop, on the '
                                    'field\'s own m2m table) and once on model._meta.db_table'))
     return fam
+
+
+def replay_delete_app(label, inputs):
+    """Native probe of the postcondition of DeleteApplication.mutate: for a small family of stored app signatures
+    (every upgrade method, with and without applied migrations, 0-2 models) the real method must hand a DeleteModel
+    for every model of the app to mutator.run_mutation (no router is installed, so every model is routed here).
+    The solver's counter-model is not decoded; the first failing probe is the reported input."""
+    from django_evolution.mutations import DeleteApplication
+    from django_evolution.signature import ProjectSignature, AppSignature, ModelSignature
+
+    class Rec(object):
+        def __init__(self, project_sig):
+            self.database, self.app_label, self.project_sig, self.database_state = 'default', 'tests', project_sig, None
+            self.ran = []
+
+        def run_mutation(self, mutation):
+            self.ran.append(mutation.model_name)
+    for method in (None, 'evolutions', 'migrations'):
+        for applied in (None, [], ['0001_initial']):
+            for names in ([], ['A'], ['A', 'B']):
+                ps = ProjectSignature()
+                app = AppSignature('tests', upgrade_method=method, applied_migrations=applied)
+                for n in names:
+                    app.add_model_sig(ModelSignature(model_name=n, table_name='tests_' + n.lower()))
+                ps.add_app_sig(app)
+                rec = Rec(ps)
+                try:
+                    DeleteApplication().mutate(rec)
+                except Exception as e:      # noqa
+                    return {'reproduced': True, 'inputs': {'upgrade_method': method, 'applied_migrations': applied,
+                                                           'models': names}, 'raised': repr(e)}
+                if sorted(rec.ran) != sorted(names):
+                    return {'reproduced': True, 'inputs': {'upgrade_method': method, 'applied_migrations': applied,
+                                                           'models': names}, 'deleted': rec.ran, 'expected': names}
+    return {'reproduced': False, 'note': 'all probes satisfy the postcondition'}
 
 
 def syn_purge_gate():
@@ -164,6 +201,53 @@ def syn_drop_list():
 
 
 # ------------------------------------------------------------------------------------------ DeleteModel.mutate
+
+def add_delete_application_mutate(w):
+    """DeleteApplication.mutate: a DeleteModel is run for every model of the app that is routed to this database, for
+    none that is not, whatever the app's upgrade method."""
+    w.cls('AppMutatorD', {'database': K.Opt(K.Str), 'app_label': K.Str, 'project_sig': K.Ref('ProjectSignature'),
+                          'database_state': K.Atom('DatabaseState')})
+    w.ghost_var('ran', K.Seq(K.Str))        # model names handed to mutator.run_mutation as DeleteModel, in order
+    w.stub('AppMutatorD.run_mutation', params={'self': K.Ref('AppMutatorD'), 'mutation': K.Ref('DeleteModel')},
+           effects=['ran = ran + [mutation.model_name]'],
+           note='AppMutator.run_mutation: simulates the DeleteModel and queues its DROP TABLE statements '
+                '(DeleteModel.mutate is verified separately)')
+    w.spec_funcs['no_models'] = lambda it: K.empty_seq(K.Ref('ModelSignature'))
+    ROUTED = 'model_routed_here(mutator.app_label, %s, mutator.database)'
+    w.contract(
+        'DeleteApplication.mutate', module=DELA, serves=['C15', 'C16'],
+        params={'self': K.Ref('DeleteApplication'), 'mutator': K.Ref('AppMutatorD')},
+        requires=['len(ran) == 0',
+                  # the app being deleted has a signature entry (the purge task is only queued for such apps)
+                  'mutator.project_sig.get_app_sig(mutator.app_label) is not None'],
+        raises={}, modifies=['ran', 'DeleteModel.model_name'],
+        locals={'model_name': K.Str},
+        ghost_before={'if mutator.database:': ['MS = no_models()'],
+                      'mutator.run_mutation(mutation)': ['R0 = ran']},
+        ghost_in_body={'app_sig = mutator.project_sig.get_app_sig(': ['MS = list(app_sig.model_sigs)'],
+                       'mutator.run_mutation(mutation)': [       # proof hints: the log grew by exactly this model
+            'assert len(ran) == len(R0) + 1', 'assert sel(ran, len(R0)) == model_name',
+            'assert forall(range(len(R0)), lambda j: sel(ran, j) == sel(R0, j))']},
+        invariants={1: LoopInv(
+            'for model_sig in list(app_sig.model_sigs):', index='i', clauses=[
+                'same(i_seq, MS)',
+                'mutator.app_label == old(mutator.app_label)', 'mutator.database == old(mutator.database)',
+                'forall(Ref_Model, lambda m: m.model_name == old(m.model_name))',
+                'forall(range(i), lambda x: implies(%s, exists(range(len(ran)), lambda j: sel(ran, j) == sel(MS, x).model_name)))'
+                % (ROUTED % 'sel(MS, x).model_name'),
+                'forall(range(len(ran)), lambda j: exists(range(i), lambda x: sel(ran, j) == sel(MS, x).model_name and %s))'
+                % (ROUTED % 'sel(MS, x).model_name'),
+            ])},
+        ensures=[
+            # nothing without a database; otherwise exactly the app's models that live on this database are dropped
+            'implies(not truthy(mutator.database), len(ran) == 0)',
+            'implies(truthy(mutator.database), forall(range(len(MS)), lambda x: implies(%s, '
+            '        exists(range(len(ran)), lambda j: sel(ran, j) == sel(MS, x).model_name))))' % (ROUTED % 'sel(MS, x).model_name'),
+            'implies(truthy(mutator.database), forall(range(len(ran)), lambda j: exists(range(len(MS)), lambda x: '
+            '        sel(ran, j) == sel(MS, x).model_name and %s)))' % (ROUTED % 'sel(MS, x).model_name'),
+        ],
+        note="MS = list(app_sig.model_sigs), the snapshot the loop iterates over")
+
 
 def add_delete_model_mutate(w):
     import z3
